@@ -74,12 +74,17 @@ deriving Repr, DecidableEq
 
 inductive FileRef
   | named (n : Str)
-  | default              -- `<project directory>/.env`
+  | default              -- `.env` of the directory of the first compose file
+  | defaultAlt           -- `.env` of the directory given to `WithWorkingDirectory`
 deriving Repr, DecidableEq
 
 structure World where
-  /-- base name of the project directory -/
+  /-- base name of the directory of the first compose file -/
   dir : Str
+  /-- base name of the directory handed to `WithWorkingDirectory` (when that option is used) -/
+  altDir : Str := []
+  /-- `.env` of that directory -/
+  altDotEnv : Option EnvFile := none
   /-- `os.Environ()` -/
   os : List Str
   /-- compose files in order → YAML documents → the `name:` key (`none` = absent) -/
@@ -102,6 +107,8 @@ inductive Opt
   | withOsEnv
   | withEnvFiles (fs : List Str)
   | withDotEnv
+  /-- `WithWorkingDirectory(alt ? <the alternative directory> : "")`; the empty path is a no-op -/
+  | withWorkDir (alt : Bool)
 deriving Repr, DecidableEq
 
 /-- `cli.ProjectOptions` (the three fields the property is about) -/
@@ -109,6 +116,8 @@ structure PO where
   name : Str := []
   env : Env := []
   envFiles : List FileRef := []
+  /-- `WorkingDir` set (to the alternative directory) -/
+  alt : Bool := false
 deriving Repr, DecidableEq
 
 def strs (l : List String) : List Str := l.map String.toList
@@ -119,9 +128,12 @@ def parseBool (s : Str) : Option Bool :=
   else if (strs ["0", "f", "F", "FALSE", "false", "False"]).contains s then some false
   else none
 
+/-- `ProjectOptions.GetWorkingDir`: `WorkingDir` when set, else the directory of the first compose file -/
+def projDir (w : World) (o : PO) : Str := if o.alt then w.altDir else w.dir
+
 def defaultEnvFile (w : World) (o : PO) : PO :=
-  match w.dotEnv with
-  | some (.file _) => { o with envFiles := [.default] }
+  match (if o.alt then w.altDotEnv else w.dotEnv) with
+  | some (.file _) => { o with envFiles := [if o.alt then .defaultAlt else .default] }
   | _ => o
 
 def withEnvFiles (w : World) (o : PO) (fs : List Str) : Except Err PO :=
@@ -138,6 +150,7 @@ def withEnvFiles (w : World) (o : PO) (fs : List Str) : Except Err PO :=
 
 def lookupFile (w : World) : FileRef → Option EnvFile
   | .default => w.dotEnv
+  | .defaultAlt => w.altDotEnv
   | .named n => List.lookup n w.envFiles
 
 /-- lookup chain: first `a`, then `b` -/
@@ -182,6 +195,7 @@ def applyOpt (w : World) (o : PO) : Opt → Except Err PO
     match getEnvFromFile w o.env o.envFiles [] with
     | .ok m => .ok { o with env := o.env ++ m }
     | .error e => .error e
+  | .withWorkDir b => .ok (if b then { o with alt := true } else o)
 
 /-- `cli.NewProjectOptions`: the option functions run in call order, the first error aborts -/
 def runOpts (w : World) : List Opt → PO → Except Err PO
@@ -197,8 +211,8 @@ def runOpts (w : World) : List Opt → PO → Except Err PO
 def cliName (w : World) (o : PO) : Str × Bool :=
   if o.name ≠ [] then (o.name, true)
   else match o.env.get cpn with
-    | some n => if n ≠ [] then (n, true) else (normalize w.dir, false)
-    | none => (normalize w.dir, false)
+    | some n => if n ≠ [] then (n, true) else (normalize (projDir w o), false)
+    | none => (normalize (projDir w o), false)
 
 /-- the scan of `loader.projectName` over one file: last non-empty `name` -/
 def lastNameDocs : List (Option Str) → Str → Str
